@@ -1,6 +1,5 @@
 package verifsim
 
-func genLifecycle(r *rng, i int) *Spec    { return genSmoke(r) }
 func genGates(r *rng, i int) *Spec        { return genSmoke(r) }
 func genMembership(r *rng, i int) *Spec   { return genSmoke(r) }
 func genCrashpoints(r *rng, i int) *Spec  { return genSmoke(r) }
